@@ -96,7 +96,8 @@ ENGINE_TIE = ("Tie: the Lean engine model (Adeu.Doc.applyEditsIndexed / Sess.app
               "order, context trimming, nested-in-insertion rewrite, conflict ranges) and compared on every submitted batch, "
               "with the result of the non-literal matchers recorded from the real call as a parameter. ")
 CLAIMED["C01"] = dict(
-    text=("Lean theorems. For every mixed batch (indexed + searched edits, any matcher results): C01_skeleton_retained (every "
+    text=("Lean theorems. For every mixed batch (indexed + searched edits, any matcher results): C01_only_this_runs_marks_are_new "
+          "(every revision mark of the result is an input mark, unchanged, or a mark of this session), C01_skeleton_retained (every "
           "story keeps its skeleton: paragraph styles / properties, tables with properties, grid, rows, cells, other blocks, "
           "in order; only paragraphs are added) and C01_existing_comments_retained. On the building blocks: "
           "C01_split_neutral_core (run splitting keeps every child once, in order), C01_delete_restores_core, "
@@ -133,7 +134,9 @@ CLAIMED["C08"] = dict(
     technique="Lean 4 proofs (accounting invariant, skip-frame theorem through every branch of the engine model, fold invariant for all-skipped batches) + differential correspondence + subset-search oracle",
     design="§5 C08")
 CLAIMED["C09"] = dict(
-    text=("Lean theorems: C09_mark_attribution (author/date/id of every created mark), C09_ids_fresh (new ids exceed every "
+    text=("Lean theorems: C09_marks_attributed (for every mixed batch, every revision mark of every story of the result is "
+          "an input mark with unchanged id / author / date or carries the session's author, the session's date and an id "
+          "handed out after the ids scanned at session start), C09_mark_attribution (author/date/id of every created mark), C09_ids_fresh (new ids exceed every "
           "id of the main part and the reachable header/footer parts), C09_comment_parts (a new comment is listed exactly "
           "once in each of the four lists), C09_deltext_only_in_del. " + ENGINE_TIE + "Oracle: package validator on the "
           "saved bytes after edit batches, review actions, replies and a second round by another author (zip, "
